@@ -2478,8 +2478,10 @@ class BADS:
                     "sd_level"
                 ] * np.sqrt(fs2 + self.options["tol_fun"] ** 2)
         else:
-            f_target = self.optim_state["fval"] - self.options["tol_fun"]
-            f_target_mu = self.optim_state["fval"]
+            f_target = np.asarray(
+                self.optim_state["fval"] - self.options["tol_fun"], dtype=float
+            )
+            f_target_mu = np.asarray(self.optim_state["fval"], dtype=float)
             f_target_s = 0
 
         return f_target_mu, f_target_s, f_target
